@@ -12,7 +12,7 @@ from . import common
 NAME = "infault"
 LEVEL = {"C15": "fault_enumeration"}
 ASSUMPTIONS = [
-    "scope: byte strings reachable from the fixed corpus by the finite damage space T (EOF at every offset), B (512-byte block zeroed/dropped/duplicated/swapped, CR before LF, k-th read fails, short reads, unreadable/directory include target) and R (one byte replaced by each of a 12-byte alphabet); grammar-generated and token-mutated inputs and -D strings are not claimed",
+    "scope: byte strings reachable from the fixed corpus by the finite damage space T (EOF at every offset), B (512-byte block zeroed/dropped/duplicated/swapped, CR before LF, k-th read fails, short reads, unreadable/directory include target) R (one byte replaced by each of a 12-byte alphabet) and D (one byte dropped at each offset); grammar-generated and token-mutated inputs and -D strings are not claimed",
     "a crash is death by signal, std::terminate/abort, a timeout (20 s wall, 30 s CPU) or an ASan / memory-safety UBSan / _GLIBCXX_ASSERTIONS report in the sanitized build; arithmetic UBSan classes are counted only",
 ]
 REAL_VS_STUB = {
@@ -108,6 +108,10 @@ def _faults_B(ent):
     return out
 
 
+def _faults_D(ent):
+    return [{"kind": "D", "off": o} for o in range(ent["size"])]
+
+
 def _faults_R(ent):
     data = ent["files"][ent["target"]]
     return [{"kind": "R", "off": o, "byte": b} for o in range(ent["size"]) for b in ALPHABET if data[o] != b]
@@ -126,7 +130,7 @@ def generate(ctx):
                 for f in _faults_T(ent) + _faults_B(ent):
                     for kind in KINDS:
                         yield {"c": ci, "job": job, "build": kind, "fault": f}
-            for f in _faults_R(ent):
+            for f in _faults_R(ent) + _faults_D(ent):
                 yield {"c": ci, "job": "pf" if "pf" in ent["jobs"] else ent["jobs"][0], "build": "san", "fault": f}
     else:
         # seeded sample of the space the thorough tier enumerates
@@ -143,8 +147,11 @@ def generate(ctx):
             for _ in range(n):
                 job = rng.choice(ent["jobs"])
                 off = rng.below(ent["size"])
-                if rng.chance(1, 2):
+                r3 = rng.below(5)
+                if r3 < 2:
                     yield {"c": ci, "job": job, "build": "rel", "fault": {"kind": "T", "off": off}}
+                elif r3 == 2:
+                    yield {"c": ci, "job": job, "build": "rel", "fault": {"kind": "D", "off": off}}
                 else:
                     b = rng.choice([x for x in ALPHABET if x != data[off]])
                     yield {"c": ci, "job": job, "build": "rel", "fault": {"kind": "R", "off": off, "byte": b}}
@@ -156,6 +163,8 @@ def damage(data, f):
         return data[:f["off"]]
     if k == "R":
         return data[:f["off"]] + bytes([f["byte"]]) + data[f["off"] + 1:]
+    if k == "D":
+        return data[:f["off"]] + data[f["off"] + 1:]
     if k == "B":
         i = f["block"] * BLOCK
         blk = data[i:i + BLOCK]
@@ -280,7 +289,7 @@ def execute(plan):
     fk = "none" if fault is None else fault["kind"] + ("-" + fault["op"] if "op" in fault else "")
     outcome_class = "crash" if crashed else ("error" if r.status else "ok")
     abstract = "%s|%s|%s|%s|%s" % (ent["id"], job, kind, fk, outcome_class)
-    if fault is not None and fault["kind"] in ("T", "R"):
+    if fault is not None and fault["kind"] in ("T", "R", "D"):
         abstract += "|%d" % (fault["off"] * 40 // max(1, ent["size"]))   # position bucket
     ub = r.stderr.count(b"runtime error:") if kind == "san" else 0
     if r.timeout:
@@ -342,7 +351,7 @@ class Cov:
             "distinct_nontrivial": len(self.abstracts),
             "rule": "one case = (corpus file, job in {parse_file, parse_file -E, interrogate with -oc/-od/-oh}, build, one storage fault on the target file); "
                     "fault space: T = EOF at every offset; B = every 512-byte block zeroed/dropped/duplicated/swapped, CR before every LF, k-th read(2) fails (EIO/EISDIR) or is interrupted, short reads of 1/7/100 bytes, "
-                    "target is a directory / missing / open fails (EACCES, ELOOP, EMFILE); R = one byte replaced by each of %s; thorough enumerates T and B on both builds and R on the sanitized build, quick samples the same space by seed; "
+                    "target is a directory / missing / open fails (EACCES, ELOOP, EMFILE); R = one byte replaced by each of %s; D = one byte dropped at every offset; thorough enumerates T and B on both builds and R and D on the sanitized build, quick samples the same space by seed; "
                     "non-trivial = a fault was applied; distinct = distinct (file, job, build, fault kind, outcome class, 1/40th position bucket) tuples" % ALPHABET,
             "samples": self.samples or [{"note": "no faulted sample retained"}],
             "exhaustive": self.ctx.tier == "thorough",
